@@ -13,7 +13,7 @@ ENGINE_B = [{'template': 't_layout', 'kinds': ['layout_'], 'max_quick': 12, 'max
                        [8, 1, 1, 16, 0, 0, 0, 3, 0, 8, 1, 8, 0, 0, 1], [8, 2, 1, 24, 0, 0, 0, 4, 0, 4, 0, 0, 0, 0, 0, 3, 0, 12, 1, 8, 0, 0, 1]]},
             # base sub-objects and vftable pointers (fixed witness programs from the inheritance / equivalence templates)
             {'template': 't_equiv', 'kinds': ['layout_'], 'max_quick': 4, 'max_thorough': 4,
-             'fixed': [[8, 8, 16, 8, 8, 0, 0, 0, 1, 0, 0, 0, 0, 0, 1], [8, 8, 16, 8, 16, 0, 0, 0, 0, 1, 0, 0, 1, 0, 1], [8, 8, 16, 8, 0, 0, 1, 0, 0, 0, 0, 0, 0, 0, 0]]},
+             'fixed': [[8, 8, 16, 8, 8, 0, 0, 0, 1, 0, 0, 0, 0, 0, 1, 0], [8, 8, 16, 8, 16, 0, 0, 0, 0, 1, 0, 0, 1, 0, 1, 0], [8, 8, 16, 8, 0, 0, 1, 0, 0, 0, 0, 0, 0, 0, 0, 0], [8, 3, 8, 4, 5, 0, 0, 0, 1, 0, 0, 0, 0, 0, 0, 1]]},
             {'template': 't_inherit', 'kinds': ['layout_'], 'max_quick': 4, 'max_thorough': 4,
              'fixed': [[8, 1, 1, 1, 1, 0, 1, 0, 0, 0, 0, 0, 1, 0, 0, 0, 1], [8, 0, 1, 1, 2, 0, 1, 0, 0, 0, 0, 0, 1, 0, 0, 0, 0]]}]
 EXPLANATION = ('t_layout run symbolically; on every accepted leaf the region list pyxis produced is laid out with an SMT model of '
